@@ -50,12 +50,13 @@ def run(R):
                  "custody: the threshold is judged from the harness' ghost record (listed custodians from the accepted settings messages; DISTINCT custodians whose approval of the transfer was accepted), never from the module's vote store; hashes are sent in lower / upper / mixed case and custodians repeat their approvals; a repeat that is paid or counted is reported under its own clauses",
                  "rotation: per claim kind and denom the old and new address together must hold after the transaction exactly what they held before; the rotated accounts (a4 by secret, with and without a separate fee payer; a0 by recovery-token holder) own every monitored claim kind; multi-signer transactions (two signers / two messages, separate signing fee payer, unsigned fee payer) are in the stream",
                  "genesis round trip is an operation of every history (scripted once, plus at random): real ExportGenesis / store wipe / InitGenesis of multistaking, spending, recovery and (every other history) gov, with every exported list PERMUTED (genesis validation imposes no order); right afterwards no balance and no claim record may differ, and the history continues under the same clauses. Not round-tripped (C12 lost:* classes, pinned in harness/cmd/c03/genesis.go): collectives, layer2, custody; carried over byte for byte: multistaking pool-delegator index and compound info, recovery token-holder registrations",
+                 "escrow: after every step, per escrowed claim kind (tips/gov, undelegations/multistaking, dApp bonds/layer2, rewards/fee collector, holder rewards/recovery) and denom, the module's balance must cover the pending entries of the accounts that did not sign; the step that opens or widens a shortfall is reported. A settlement by the rightful party of an entry pending in the harness' ghost record (accepted request / handle / cancel / edit / rotation messages) must be accepted. The tip stream keeps 4+ requesters pending at once, interleaves re-registration (same value, new value, other key), deletion and rotation between creation and settlement, and repeats every settlement (handle x3, cancel after handle, cancel twice, claim / withdraw twice)",
                  "raw Ethereum transactions: only the forged direction is generated (attacker-signed raw tx naming a victim without / with a key on record)"]
     R.gen("gen_signers", "DebitSites.v")
     R.coq_files(FILES)
     R.coq_property()
     R.audit()
-    n = 30 if R.tier == "quick" else 300
+    n = 24 if R.tier == "quick" else 300
     obs = observe(R, n)
     total = 0
     if obs:
